@@ -196,6 +196,14 @@ def fold_min_size(fs):
 
 # ---------------------------------------------------------------- Rust emission
 
+# FlexVec::push_default is only available for item types with FlatDefault: generated types that have one
+# override the harness hook (harness/src/probe.rs DeepRead::push_default_to)
+PUSH_DEFAULT = '''    fn push_default_to<L: Flat + Length>(v: &mut FlexVec<Self, L>) -> Option<Result<(), Error>> {
+        Some(v.push_default().map(|_| ()))
+    }
+'''
+
+
 class Emitter:
     def __init__(self):
         self.names = {}       # descriptor -> rust type name
@@ -297,6 +305,8 @@ impl_dyn_sized!({name});
         # in-place operations on a container nested as the unsized tail go through the field reference
         hop = ('    fn hop(&mut self, op: &HOp) -> String {\n        self.%s.hop(op)\n    }\n' % acc(len(fs) - 1)
                if (not sized and len(fs) > 0) else '')
+        dflt = has_default(t)
+        pdef = PUSH_DEFAULT if dflt else ''
         src = f'''
 {'#[derive(Clone)]' if sized else ''}
 {self.attrs(t)}
@@ -309,9 +319,8 @@ impl DeepRead for {name} {{
     fn addrs(&self, base: usize, o: &mut Vec<(usize, usize)>) {{
         note(self, base, o);
 {addrs}    }}
-{hop}}}
+{hop}{pdef}}}
 '''
-        dflt = has_default(t)
         if sized:
             if len(fs) == 0:
                 lit = name
@@ -408,7 +417,7 @@ impl DeepRead for {name} {{
         match {scrut} {{
 {addr_arms}        }}
     }}
-{enum_hop}}}
+{enum_hop}{PUSH_DEFAULT if has_default(t) else ''}}}
 '''
         if sized:
             darm = f'            Spec::Default => <{name} as Default>::default(),\n' if has_default(t) else ''
@@ -442,7 +451,7 @@ def emit_rust(shapes):
         tops.append((sid, t, em.rust_ty(t)))
     out = ['// @generated by gen/shapes.py — do not edit\n',
            'use crate::probe::*;\nuse crate::impl_dyn_sized;\nuse core::marker::PhantomData;\nuse std::fmt::Write as _;\n',
-           'use flatty::{flat, prelude::*, Emplacer, Error, FlatVec, FlatString, FlexVec, portable::{le, be, Bool}};\n']
+           'use flatty::{flat, prelude::*, Emplacer, Error, FlatVec, FlatString, FlexVec, portable::{le, be, Bool}, vec::Length};\n']
     out.extend(em.items)
     seen = set()
     for sid, t, rt in tops:
